@@ -80,12 +80,12 @@ def check(case, ctx):
         if r2.raised is not None:
             ctx.count("filtered_side_raised")
         elif kind == "red":
-            d = ops.diff_red(r1, r2, tol, what=f"{op} mask vs filtered")
+            d = ops.diff_red(r1, r2, tol, nullzero=op in ("var", "std"), what=f"{op} mask vs filtered")
             if d:
                 fails.append({"monitor": "c05.filter", "sig": f"{op}|{m['kind']}|{np.dtype(case['val']['dtype']).kind}", "detail": d})
         else:
             a = [r1.vals[i] for i in sel]
-            d = ops.diff_rows(a, r2.vals, tol, what=f"{op} mask vs filtered (selected rows)", rows=sel)
+            d = ops.diff_rows(a, r2.vals, tol, nullzero=op in ("var", "std"), what=f"{op} mask vs filtered (selected rows)", rows=sel)
             if d:
                 fails.append({"monitor": "c05.filter", "sig": f"{op}|{m['kind']}|{np.dtype(case['val']['dtype']).kind}", "detail": d})
     else:
